@@ -3,8 +3,13 @@ package main
 import (
 	"go/types"
 	"sort"
+	"strings"
 
+	"golang.org/x/tools/go/callgraph"
+	"golang.org/x/tools/go/callgraph/cha"
+	"golang.org/x/tools/go/callgraph/vta"
 	"golang.org/x/tools/go/ssa"
+	"golang.org/x/tools/go/ssa/ssautil"
 )
 
 // CG is a cheap, sound-for-may call graph over the repository's own functions:
@@ -18,11 +23,52 @@ type CG struct {
 	funcs    []*ssa.Function
 	// UnresolvedFuncValues counts calls through function values with unknown targets.
 	UnresolvedFuncValues int
+	// vtaSites: thorough tier only — callees of function-value calls resolved by VTA over the whole program
+	vtaSites    map[ssa.CallInstruction][]*ssa.Function
+	VTAResolved int
 }
 
+var cgCache = map[*Prog]*CG{}
+
 func (p *Prog) CallGraph() *CG {
+	if g := cgCache[p]; g != nil {
+		return g
+	}
+	g := p.buildCallGraph()
+	cgCache[p] = g
+	return g
+}
+
+func (p *Prog) buildCallGraph() *CG {
 	g := &CG{p: p, edges: map[*ssa.Function][]*ssa.Function{}, callers: map[*ssa.Function][]*ssa.Function{}, implMemo: map[*types.Func][]*types.Func{}}
 	g.funcs = p.SrcFuncs("ast", "boltz", "objectz", "zitiql", "boltztest")
+	if p.Whole {
+		// whole-program VTA (seeded with CHA) resolves calls through function values; its results are
+		// only ADDED to the name-and-shape CHA used everywhere else, so may-effects can only grow
+		g.vtaSites = map[ssa.CallInstruction][]*ssa.Function{}
+		all := ssautil.AllFunctions(p.SSA)
+		vg := vta.CallGraph(all, cha.CallGraph(p.SSA))
+		inRepo := map[*ssa.Function]bool{}
+		for _, fn := range g.funcs {
+			inRepo[fn] = true
+		}
+		for fn, node := range vg.Nodes {
+			if fn == nil || !inRepo[fn] {
+				continue
+			}
+			for _, e := range node.Out {
+				if e.Site == nil || e.Site.Common().IsInvoke() || e.Site.Common().StaticCallee() != nil {
+					continue
+				}
+				callee := e.Callee.Func
+				if callee == nil || callee.Blocks == nil || callee.Pkg == nil || !strings.HasPrefix(callee.Pkg.Pkg.Path(), modPath) {
+					continue
+				}
+				g.vtaSites[e.Site] = append(g.vtaSites[e.Site], callee)
+			}
+		}
+		_ = callgraph.GraphVisitEdges
+	}
 	for _, fn := range g.funcs {
 		seen := map[*ssa.Function]bool{}
 		addEdge := func(to *ssa.Function) {
@@ -42,6 +88,10 @@ func (p *Prog) CallGraph() *CG {
 					}
 				case ssa.CallInstruction:
 					for _, t := range g.CalleesOf(x.Common()) {
+						addEdge(t)
+					}
+					for _, t := range g.vtaSites[x] {
+						g.VTAResolved++
 						addEdge(t)
 					}
 				}
@@ -66,6 +116,11 @@ func (g *CG) CalleesOf(c *ssa.CallCommon) []*ssa.Function {
 		return []*ssa.Function{a}
 	}
 	if sc := c.StaticCallee(); sc != nil {
+		if sc.Pkg == nil || !strings.HasPrefix(sc.Pkg.Pkg.Path(), modPath) {
+			if o := sc.Origin(); o == nil || o.Pkg == nil || !strings.HasPrefix(o.Pkg.Pkg.Path(), modPath) {
+				return nil // dependency code is not part of the repository call graph (same in both tiers)
+			}
+		}
 		if sc.Blocks == nil {
 			if o := sc.Origin(); o != nil && o.Blocks != nil {
 				return []*ssa.Function{o}
